@@ -26,10 +26,10 @@ MOD = "mc.props.c16"
 _CACHE = {}
 
 
-def _space(depth):
-    key = ("space", depth)
+def _space(depth, leaves=(1, 2)):
+    key = ("space", depth, json.dumps(list(leaves)))
     if key not in _CACHE:
-        sp = R.dict_space(depth)
+        sp = R.dict_space(depth, leaves=tuple(leaves))
         _CACHE[key] = [(d, R.flatten(d)) for d in sp]
     return _CACHE[key]
 
@@ -131,12 +131,18 @@ def _check_idempotent(fn_merge, r, d, d0, viol, counts, tag, ctx_txt, size):
         viol.add(f"c16:{tag}:mutates-default:on-remerge", f"{ctx_txt}: re-merge changed the defaults to {_js(d)}", size)
 
 
+def _has_falsy_leaf(x):
+    return any(not v for v in R.flatten(x)[0].values())
+
+
 def _run_merge(case):
     from cij.io.config import update_config
     u0 = case["user"]
-    space = _space(case.get("ddepth", 2))
+    space = _space(case.get("ddepth", 2), case.get("dleaves", [1, 2]))
     viol, counts = _Viol(), Counter()
     u = R.clone(u0)
+    if _has_falsy_leaf(u0):
+        counts["users_with_null_or_falsy_leaf"] += 1
     ukeys = set(u0)
     for d0, _flat in space:
         d = R.clone(d0)
@@ -161,7 +167,7 @@ def _run_merge(case):
     v = viol.out()
     outcome = "merge:" + ("ok" if not v else "+".join(sorted({x["sig"].split(":")[2] for x in v})))
     return {"viol": v, "nontrivial": bool(u0), "outcome": outcome, "counts": dict(counts),
-            "key": "merge:" + json.dumps(u0, sort_keys=True)}
+            "key": "merge:" + json.dumps(u0, sort_keys=True) + "/" + json.dumps(case.get("dleaves", [1, 2]))}
 
 
 # ------------------------------------------------------------------------------------------ apply oracle
@@ -179,6 +185,8 @@ def _variant_values(base, variant):
             out[p] = R.alt_value(dl[p]) if p in dl and R.same(v, dl[p]) else v
         elif variant == "falsy":
             out[p] = R.falsy_value(v, dl.get(p, R.ABSENT))
+        elif variant == "null":       # every kept leaf is an explicit null (YAML `key:` / JSON null)
+            out[p] = None
         else:
             raise HarnessError(f"unknown variant {variant}")
     return out
@@ -340,7 +348,7 @@ def _run_yamljson(case):
 
 # ------------------------------------------------------------------------------------------ histories
 
-H_OPS = ["apply:u0", "apply:u1", "apply:uF", "update:u1,d1", "update:uF,d1", "validate:u1", "validate:bad",
+H_OPS = ["apply:u0", "apply:u1", "apply:uN", "apply:uF", "update:u1,d1", "update:uF,d1", "validate:u1", "validate:bad",
          "read:yaml", "read:json-bad", "scribble"]
 
 
@@ -350,6 +358,8 @@ def _h_objects():
         "u1": {"qha": {"settings": {"NT": 5, "T_MIN": 300}},
                "elast": {"settings": {"symmetry": {"system": "cubic"}, "mode_gamma": {"interpolator": "akima"}}},
                "output": {"pressure_base": ["cij"]}},
+        "uN": {"qha": {"settings": {"static_only": None, "DT": 0, "T_MIN": None}}, "output": {"volume_base": None},
+               "elast": {"settings": {"symmetry": {"ignore_rank": None, "drop_atol": 0.0}}}},
         "uF": R.clone(_shipped("examples/akimotoite/settings.yaml")),
         "d1": {"qha": {"settings": {"NT": 1, "DT": 2}, "input": "i"}, "extra": {"k": [1, 2]}},
         "bad": {"qha": {"settings": {"NT": 0}}, "elast": {}},
@@ -395,6 +405,7 @@ def _run_history(case):
         expected = {
             "apply:u0": ("ok", R.ref_merge(snap["u0"], D0)),
             "apply:u1": ("ok", R.ref_merge(snap["u1"], D0)),
+            "apply:uN": ("ok", R.ref_merge(snap["uN"], D0)),
             "apply:uF": ("ok", R.ref_merge(snap["uF"], D0)),
             "update:u1,d1": ("ok", R.ref_merge(snap["u1"], snap["d1"])),
             "update:uF,d1": ("ok", R.ref_merge(snap["uF"], snap["d1"])),
@@ -543,7 +554,7 @@ def apply_cases(quick):
         n = len(paths)
         qm = quick_masks(paths)
         info[rel] = {"leaves": n, "bounded_subsets": len(qm)}
-        for variant in ("shipped", "alt", "falsy"):
+        for variant in ("shipped", "alt", "falsy", "null"):
             for ch in _chunks(qm, 128):
                 cases.append({"kind": "apply", "file": rel, "variant": variant, "nleaves": n, "masks": {"list": ch}})
         if quick:
@@ -565,24 +576,31 @@ def apply_cases(quick):
     return cases, info
 
 
-CONFLICT_VALUES = [7, "x", [], ["x"], {}, {"zz_new": 1}, {"zz_new": {}}, {"zz_new": {"deep": [1]}}]
+MERGE_USER_LEAVES = [1, 2, None, 0, False, "", []]      # null and every falsy kind are ordinary leaf values
+MERGE_DEFAULT_LEAVES = [1, 2, None]
+
+CONFLICT_VALUES = [None, 0, 0.0, False, "", [], 7, "x", ["x"], [None], {}, {"zz_new": 1}, {"zz_new": None}, {"zz_new": {}},
+                   {"zz_new": {"deep": [1]}}]
 
 
 def conflict_cases():
-    """A single user entry at every path (leaf or inner) of the packaged defaults, with every kind of value;
-    alone and on top of a shipped example."""
-    D = R.packaged_defaults()
+    """One user entry at a time: every path (leaf or inner) of the packaged defaults and of every shipped file is
+    set to every kind of value (null, each falsy scalar, scalars, lists, leafless and non-empty dictionaries), alone
+    and on top of each shipped file.  The user's value must survive; everything else comes from the defaults."""
     paths = set()
-    for p in R.flatten(D)[0]:
-        for i in range(1, len(p) + 1):
-            paths.add(p[:i])
-    base = R.load_yaml("examples/akimotoite/settings.yaml")
+    bases = [{}]
+    for rel in R.SHIPPED_REL:
+        obj = R.load_yaml(rel)
+        bases.append(obj)
+        for p in R.flatten(obj)[0]:
+            for i in range(1, len(p) + 1):
+                paths.add(p[:i])
     cases = []
     for p in sorted(paths):
         users = []
         for v in CONFLICT_VALUES:
-            users.append(R.set_path({}, p, v))
-            users.append(R.set_path(base, p, v))
+            for b in bases:
+                users.append(R.set_path(b, p, v))
         cases.append({"kind": "apply", "users": users, "at": R.dotted(p)})
     return cases, len(paths)
 
@@ -628,22 +646,27 @@ def _tally(ctx, results, inputs_key, note):
 def explore(ctx):
     from mc import explore as X
     ctx.rule = (
-        "merge: every (user, default) pair with user in D_k, default in D_2, D_k = all dictionaries over keys {a,b}, "
-        "leaves {1,2}, nesting depth <= k, empty dictionaries included (k=2 quick: 144x144; k=3 thorough: 21609x144); "
-        "one case = one user dict against all 144 defaults. apply: apply_default_config on sub-dictionaries (subsets of "
+        "merge: every (user, default) pair of small-scope dictionary spaces D(leaves, k) = all dictionaries over keys "
+        "{a,b} with the given leaf values and nesting depth <= k, empty dictionaries included: both tiers "
+        "D({1,2,null,0,false,'',[]},2) x D({1,2,null},2) = 5184 x 400; thorough adds D({1,2},3) x D({1,2},2) and "
+        "D({1,null},3) x D({1,null},2) = 21609 x 144 each; null is an ordinary leaf value; one case = one user dict "
+        "against all defaults of its space. apply: apply_default_config on sub-dictionaries (subsets of "
         "leaf paths) of each shipped settings file in three value variants (as shipped / every leaf changed to differ "
         "from the default / every leaf falsy) on a bounded set in both tiers (power set of elast leaves, <=3 kept or <=3 "
         "removed of elast+qha.settings leaves, x {none, all} of the other leaves); thorough adds the full power set of "
         "the leaves of each example file (values as shipped, changed only where equal to the default) and, for the "
-        "defaults file, all subsets of its elast+qha.settings leaves with every value changed; plus one user entry of every value kind at every "
-        "path of the packaged defaults. validate: 4 shipped files x every documented field x every perturbation. "
+        "defaults file, all subsets of its elast+qha.settings leaves with every value changed; a fourth value variant 'every kept leaf null' on the bounded "
+        "set; plus one user entry at a time at every path of the packaged defaults and of the shipped files, set to "
+        "null / 0 / 0.0 / false / '' / [] / scalars / lists / leafless and non-empty dictionaries, alone and on top of "
+        "each shipped file. validate: 4 shipped files x every documented field x every perturbation. "
         "yamljson: shipped/effective configurations and one probe per scalar kind and YAML-sensitive string. history: "
-        "all sequences of length 1..3 over 10 operations on shared objects. A case is non-trivial when: merge - the "
+        "all sequences of length 1..3 over 11 operations on shared objects. A case is non-trivial when: merge - the "
         "user dict is non-empty; apply - at least one input ran; validate - the verdict is asserted by the table "
         "(not 'unasserted'); history - length >= 2; yamljson - always. states = distinct inputs given to cij, "
         "transitions = calls of cij functions (measured by the workers).")
     ctx.assumptions = [
-        "effective configuration is defined on leaf paths (mc/ref/config_ref.py docstring); lists are leaves",
+        "effective configuration is defined on leaf paths (mc/ref/config_ref.py docstring); lists are leaves; an "
+        "explicit null (None) and every falsy scalar are ordinary user-specified leaf values that must survive",
         "a user sub-dictionary without any leaf specifies nothing: default leaves below it are taken (asserted); "
         "whether a leafless key survives in the result is not asserted, and a leafless user dict exactly on a default "
         "leaf may yield either the default leaf or the user's leafless dict (not asserted; an exception is a violation)",
@@ -656,10 +679,17 @@ def explore(ctx):
         "PyYAML safe_dump/safe_load and json are trusted to spell an object faithfully (checked per probe)",
         "reference defaults read with yaml.safe_load from $VERIF_REPO/cij/data/default/settings.yaml",
     ]
-    depth = 2 if ctx.quick else 3
-    users = R.dict_space(depth)
-    res = ctx.run(MOD, "run_case", [{"kind": "merge", "user": u, "ddepth": 2} for u in users], part="merge",
-                  states=0, transitions=0)
+    # merge spaces: (user leaves, user depth, default leaves, default depth)
+    spaces = [(MERGE_USER_LEAVES, 2, MERGE_DEFAULT_LEAVES, 2)]
+    if not ctx.quick:
+        spaces += [([1, 2], 3, [1, 2], 2), ([1, None], 3, [1, None], 2)]
+    mcases, minfo = [], []
+    for ul, ud, dl, dd in spaces:
+        users = R.dict_space(ud, leaves=tuple(ul))
+        minfo.append({"user_leaves": ul, "user_depth": ud, "users": len(users), "default_leaves": dl,
+                      "default_depth": dd, "defaults": len(R.dict_space(dd, leaves=tuple(dl)))})
+        mcases += [{"kind": "merge", "user": u, "ddepth": dd, "dleaves": dl} for u in users]
+    res = ctx.run(MOD, "run_case", mcases, part="merge", states=0, transitions=0)
     _tally(ctx, res, "pairs", "merge_counts")
 
     acases, ainfo = apply_cases(ctx.quick)
@@ -692,8 +722,8 @@ def explore(ctx):
     ctx.transitions += sum(r.get("calls", 0) for r in res)
 
     ctx.notes["alphabets"] = {
-        "merge_user_space": len(users), "merge_default_space": len(R.dict_space(2)), "merge_user_depth": depth,
-        "apply_files": ainfo, "apply_variants": 3, "apply_conflict_paths": npaths,
+        "merge_spaces": minfo,
+        "apply_files": ainfo, "apply_variants": 4, "apply_conflict_paths": npaths,
         "apply_conflict_values": len(CONFLICT_VALUES),
         "validate_bases": len(R.SHIPPED_REL), "validate_fields": len(R.FIELDS), "validate_perturbations": len(perts),
         "validate_by_expectation": dict(Counter(p["expect"] for p in perts)),
@@ -743,6 +773,11 @@ def selftest():
         ({"a": {"b": {}}}, {"a": 2, "b": 1}, {"a": 2, "b": 1}),
         ({"a": [1]}, {"a": [2, 3]}, {"a": [1]}),                       # lists are leaves
         ({"a": 0, "b": False, "c": ""}, {"a": 5, "b": True, "c": "x"}, {"a": 0, "b": False, "c": ""}),
+        ({"a": None}, {"a": 1}, {"a": None}),                          # null is an ordinary leaf value
+        ({"a": {"b": None}}, {"a": {"b": 1, "c": None}}, {"a": {"b": None, "c": None}}),
+        ({"a": None}, {"a": {"b": 1}}, {"a": None}),                   # null leaf over default dict
+        ({"a": {"b": 1}}, {"a": None}, {"a": {"b": 1}}),               # user dict over default null leaf
+        ({}, {"a": None}, {"a": None}),
     ]
     for u, d, ex in hand:
         chk(R.same(R.ref_merge(u, d), ex), f"ref_merge({u},{d}) = {R.ref_merge(u, d)} != {ex}")
@@ -750,6 +785,13 @@ def selftest():
     # compare must flag each class of slip
     chk([k for k, _, _ in R.compare({"a": 2}, {"a": 1}, {"a": 2})[0]] == ["default-overrides-user"], "default-overrides-user")
     chk([k for k, _, _ in R.compare({}, {"a": 1}, {})[0]] == ["user-leaf-lost"], "user-leaf-lost")
+    chk([k for k, _, _ in R.compare({"a": 1}, {"a": None}, {"a": 1})[0]] == ["default-overrides-user"], "null user leaf overridden")
+    chk([k for k, _, _ in R.compare({"a": {"b": [1]}}, {"a": {"b": None}}, {"a": {"b": [1]}})[0]] == ["default-overrides-user"],
+        "nested null user leaf overridden")
+    chk([k for k, _, _ in R.compare({}, {"a": None}, {})[0]] == ["user-leaf-lost"], "null user leaf dropped")
+    chk([k for k, _, _ in R.compare({"a": 1}, {"a": 1}, {"b": None})[0]] == ["default-leaf-missing"], "null default leaf dropped")
+    chk(len(R.dict_space(2, leaves=tuple(MERGE_USER_LEAVES))) == 5184 and len(R.dict_space(2, leaves=tuple(MERGE_DEFAULT_LEAVES))) == 400,
+        "sizes of the extended merge spaces")
     chk([k for k, _, _ in R.compare({"a": 1}, {"a": 1}, {"b": 2})[0]] == ["default-leaf-missing"], "default-leaf-missing")
     chk([k for k, _, _ in R.compare({"a": 1, "c": 3}, {"a": 1}, {})[0]] == ["extra-key"], "extra-key")
     chk([k for k, _, _ in R.compare({"a": 1, "c": {}}, {"a": 1}, {})[0]] == ["extra-empty-dict"], "extra-empty-dict")
